@@ -13,7 +13,7 @@ PROBES = [
     "read-ends-at-boundary", "relseek-back-across-boundary", "read-spans-two-boundaries", "cread0",
     "eos-short-buffer-read", "fault-between-reads-of-one-op", "counted-read-past-end-raises",
     "out-of-range-seek-raises", "out-of-range-read_block-raises", "multi-file", "sub-byte",
-    "resync-after-raise", "big-blocks", "held-results-rechecked",
+    "resync-after-raise", "big-blocks", "held-results-rechecked", "non-contiguous-list",
 ]
 COMPONENTS = {
     "real": ["sigpyproc.io.fileio.FileReader (seek/cread/creadinto/_seek2hdr/_seek_set/cur_data_pos_stream)",
